@@ -93,6 +93,13 @@ def corpus_items(tier: str) -> list:
             if tier == "quick" and (si * 7 + pi) % 64 != 0:
                 continue
             items.append({"prog": pi, "enable": sub or ["none"]})
+    # keyword combinations: default plus each single name, the keywords alone and together (the documented "union")
+    combos = [["default", n] for n in NAMES] + [["all"], ["default"], ["none"], ["default", "default"], ["all", "default"], ["all", "duplication"], ["default", "duplication", "math"], ["none", "math"], ["math", "none"]]
+    for pi, prog in enumerate(FIXED):
+        for ci, combo in enumerate(combos):
+            if tier == "quick" and (ci + pi) % 3 != 0 and combo != ["default", "duplication"]:
+                continue
+            items.append({"prog": pi, "enable": combo})
     return items
 
 
